@@ -25,6 +25,23 @@ var solvers = []solverSpec{
 		return []string{"cvc5", fmt.Sprintf("--tlimit=%d", t*1000), "--full-saturate-quant", f}
 	}, "(set-logic ALL)\n"},
 	{"z3", func(f string, t int) []string { return []string{"z3", fmt.Sprintf("-T:%d", t), f} }, ""},
+	// the same solvers with other random seeds (stage 3 of dischargeAll; selected by name only)
+	{"z3@7", func(f string, t int) []string { return []string{"z3", fmt.Sprintf("-T:%d", t), "smt.random_seed=7", f} }, ""},
+	{"z3@42", func(f string, t int) []string { return []string{"z3", fmt.Sprintf("-T:%d", t), "smt.random_seed=42", f} }, ""},
+	{"z3-new@7", func(f string, t int) []string {
+		return []string{"z3-new", fmt.Sprintf("-T:%d", t), "smt.random_seed=7", f}
+	}, ""},
+	{"z3-new@42", func(f string, t int) []string {
+		return []string{"z3-new", fmt.Sprintf("-T:%d", t), "smt.random_seed=42", f}
+	}, ""},
+}
+
+// solverFamily: the solver behind a portfolio entry (reseeded variants are the same solver)
+func solverFamily(name string) string {
+	if k := strings.Index(name, "@"); k >= 0 {
+		return name[:k]
+	}
+	return name
 }
 
 type solveOut struct {
@@ -179,6 +196,14 @@ func dischargeAll(results []*funcResult, workDir string, timeoutS int, jobs int,
 						}
 						r = solvePortfolio(workDir, base, script, t2, []string{"z3-new", "z3", "cvc5"})
 						r.secs += r1.secs
+						if r.answer != "sat" && r.answer != "unsat" && !j.o.canary {
+							// stage 3: quantifier instantiation in z3 depends on its random seed (a goal decided in 0.2 s with
+							// one seed times out with another): the same two solvers again with other seeds
+							r2 := r
+							r = solvePortfolio(workDir, base+".reseed", script, t2, []string{"z3@7", "z3@42", "z3-new@7", "z3-new@42"})
+							r.secs += r2.secs
+							r.output = r2.output + "\n" + r.output
+						}
 					}
 				}
 				j.o.solver = r.solver
@@ -191,7 +216,7 @@ func dischargeAll(results []*funcResult, workDir string, timeoutS int, jobs int,
 						// a second solver must agree
 						var others []string
 						for _, s := range solvers {
-							if s.name != r.solver {
+							if solverFamily(s.name) != solverFamily(r.solver) && !strings.Contains(s.name, "@") {
 								others = append(others, s.name)
 							}
 						}
@@ -248,7 +273,7 @@ func getValues(workDir, base, script string, terms []string, side []string, time
 	for _, s := range side {
 		body += "(assert " + s + ")\n"
 	}
-	for _, s := range []solverSpec{solvers[0], solvers[2]} {
+	for _, s := range []solverSpec{solvers[0], solvers[2], solvers[1]} {
 		r := runSolver(context.Background(), s, workDir, base+".model", body, timeoutS, extra)
 		if r.answer != "sat" {
 			continue
